@@ -34,7 +34,7 @@ const waitLong = 30 * time.Second
 // judges it) but no further cases are generated, so that a hanging implementation costs one timeout, not hundreds.
 var stalled int32
 
-func stall() { atomic.StoreInt32(&stalled, 1) }
+func stall()          { atomic.StoreInt32(&stalled, 1) }
 func isStalled() bool { return atomic.LoadInt32(&stalled) != 0 }
 
 var logger = watermill.NopLogger{}
@@ -209,12 +209,19 @@ func (s *chanSub) subscribed() []string {
 }
 
 // feed sends the message to the component and waits for its settlement.
-func feed(ch chan *message.Message, m *message.Message) string {
+func feed(ch chan *message.Message, m *message.Message) string { return feedThen(ch, m, nil) }
+
+// feedThen: `then` runs once the component has taken the message (ordered after the send, so that a shutdown it triggers - which
+// closes the channel - is ordered after the send for the race detector as it is in time).
+func feedThen(ch chan *message.Message, m *message.Message, then func()) string {
 	select {
 	case ch <- m:
 	case <-time.After(waitLong):
 		stall()
 		return "notaken"
+	}
+	if then != nil {
+		then()
 	}
 	select {
 	case <-m.Acked():
@@ -265,7 +272,9 @@ func (d msgDesc) build() *message.Message {
 	return m
 }
 
-func (d msgDesc) fields() string { return wh.HexS(d.uuid) + " " + wh.Hex(d.payload) + " " + wh.Meta(d.meta) }
+func (d msgDesc) fields() string {
+	return wh.HexS(d.uuid) + " " + wh.Hex(d.payload) + " " + wh.Meta(d.meta)
+}
 
 // renderPubs: P<n>[:<topic>|<uuid>|<payload>|<meta>|<flags…>;…]; every message of every call is one entry.
 func renderPubs(calls []pubCall, withSame bool) string {
@@ -467,14 +476,15 @@ func (c *rqCase) req() string {
 }
 
 type rqEnv struct {
-	sub    *chanSub
-	pub    *recPub
-	cancel context.CancelFunc
-	done   chan error
-	delay  bool
-	mu      sync.Mutex
-	scripts map[*message.Message]*rqCase
-	tgOther bool
+	sub        *chanSub
+	pub        *recPub
+	cancel     context.CancelFunc
+	done       chan error
+	delay      bool
+	mu         sync.Mutex
+	scripts    map[*message.Message]*rqCase
+	tgOther    bool
+	afterTaken func() // see feedThen
 }
 
 const rqDelay = 400 * time.Millisecond
@@ -554,7 +564,7 @@ func (e *rqEnv) run(c *rqCase) string {
 	e.mu.Unlock()
 	e.pub.reset(m, c.fail)
 	e.pub.setPanic(c.pan)
-	s := feed(e.sub.ch("failed"), m)
+	s := feedThen(e.sub.ch("failed"), m, e.afterTaken)
 	e.mu.Lock()
 	other := e.tgOther
 	e.mu.Unlock()
@@ -757,6 +767,27 @@ func rqCases(out *wh.Out, rng *wh.Rng, nRandom, nBursts int) {
 		out.Count("rq.delay")
 	}
 	env.close()
+	// shutdown while a message waits out the delay: the context given to Run is cancelled a quarter of the delay after the message
+	// was handed over. The message's own context is alive (this subscriber does not derive it from the subscription), so the
+	// statement still applies to it: it is acked only after the destination accepted it (or it is nacked) - a shutdown is no
+	// licence to ack without publishing.
+	for i := 0; i < 2 && !isStalled(); i++ {
+		senv, err := newRq(true, i%2 == 1)
+		if err != nil {
+			fatal("requeuer setup", err)
+		}
+		c := &rqCase{delay: true, tgOK: true, topic: "later", msg: rndMsg(rng, rndBytes), fail: false}
+		senv.afterTaken = func() {
+			go func() {
+				time.Sleep(rqDelay / 4)
+				senv.cancel()
+			}()
+		}
+		obs := senv.run(c)
+		out.Case(c.req(), obs)
+		out.Count("rq.delay.shutdown_during_delay")
+		senv.close()
+	}
 }
 
 func unhex(s string) string {
@@ -986,7 +1017,7 @@ func fwdCases(out *wh.Out, rng *wh.Rng, rounds int) {
 				raw, d := rawEnvelope(class, rng)
 				n++
 				fail := n%failEvery == 0 // the destination fails on every k-th message
-				pan := !fail && n%7 == 3  // … and panics on some others (it accepts again afterwards)
+				pan := !fail && n%7 == 3 // … and panics on some others (it accepts again afterwards)
 				obs := env.run(raw, fail, rng, pan)
 				if pan {
 					out.Count("fwd.dest_panic")
